@@ -273,6 +273,16 @@ def rule_subtree_watches_go_with_directory(ctx):
         else:
             why = f"loop found, prefix test={prefix_test}, entry unset={unsets}, rm_watch={removes}"
     ctx.check(ok, cl.fq, "watches under the removed directory are removed and unset", f"{why}: after `mv data other; mkdir -p data/sub` the new data/sub is never watched (its stale entry is not None) and events below other/ are reported under data/", "loop over self.watches with a prefix test, rm_watch and = None", where=ctx.where_of(cl, arms[0]))
+    # the kernel's IGNORED notice for a watch that was removed here may arrive after a new watch was installed for the
+    # same path: it must only clear the entry when that entry still holds the watch the notice is about
+    ign = [n for n in ast.walk(cl.node) if isinstance(n, ast.If) and "Mask.IGNORED" in ast.unparse(n.test)]
+    ok_ign = False
+    for n in ign:
+        for a in ast.walk(n):
+            if isinstance(a, ast.Assign) and ast.unparse(a.targets[0]).startswith("self.watches[") and ast.unparse(a.value) == "None":
+                guards = [g for g in ast.walk(n) if isinstance(g, ast.If) and g is not n and any(a is x for x in ast.walk(g))]
+                ok_ign = any(("event.watch" in ast.unparse(g.test)) and (" is " in ast.unparse(g.test) or "==" in ast.unparse(g.test)) for g in guards)
+    ctx.check(bool(ign) and ok_ign, cl.fq, "an IGNORED notice clears the entry only if it still holds that very watch", "the entry is cleared by path alone: after `mv data other; mkdir data` read in one batch, the late notice for the removed watch wipes the watch just installed for the new data/, whose removal is then never reported", "guarded by `self.watches.get(path) is event.watch`", where=ctx.where_of(cl, ign[0]) if ign else ctx.where_of(cl))
     # the prefix is separator-terminated (data/ must not take data2/ with it)
     pre = [a for st_ in arm for a in ast.walk(st_) if isinstance(a, ast.Assign) and isinstance(a.targets[0], ast.Name) and re.search(r"path\s*/\s*''|os\.sep|'/'", ast.unparse(a.value))]
     used = any(isinstance(c.func, ast.Attribute) and c.func.attr == "startswith" and c.args and isinstance(c.args[0], ast.Name) and c.args[0].id in {a.targets[0].id for a in pre} for st_ in arm for c in calls_in(st_))
@@ -359,12 +369,13 @@ RULES = [
     Rule("R-C14-1", "same reactions on both sides", rule_same_reactions, min_instances=10),
     Rule("R-C14-2", "same relevance filter", rule_same_filter, min_instances=5),
     Rule("R-C14-3", "event folding keeps the sets disjoint", rule_event_folding, min_instances=15),
-    Rule("R-C14-5", "a removed directory takes the watches of its subtree with it", rule_subtree_watches_go_with_directory, min_instances=3),
+    Rule("R-C14-5", "a removed directory takes the watches of its subtree with it", rule_subtree_watches_go_with_directory, min_instances=4),
     Rule("R-C14-6", "the watcher does not forget what it could not hash", rule_unsettled_paths_kept, min_instances=3),
     Rule("R-C14-4", "the watcher looks where a restart looks", rule_watched_where_restart_looks, min_instances=6),
 ]
 
 MUTANTS = [
+    Mutant("ignored-clears-by-path", "watcher.py", in_function("AsyncInotifyWrapper.change_loop", replace_once("                if self.watches.get(path) is event.watch:\n                    self.watches[path] = None\n", "                self.watches[path] = None\n")), ("R-C14-5",)),
     Mutant("adopted-inputs-not-watched", "workflow.py", in_function("Workflow._resolve_supply_file", replace_once("            detached = False\n            self.watch_dir(Path(path).parent)\n", "            detached = False\n")), ("R-C14-8",)),
     Mutant("file-events-not-queued", "watcher.py", in_function("AsyncInotifyWrapper.change_loop", replace_once("            else:\n                self.change_queue.put_nowait((change, path))\n", "            else:\n                pass\n")), ("R-C14-7",)),
     Mutant("new-directory-files-not-queued", "watcher.py", in_function("AsyncInotifyWrapper.change_loop", replace_once("                                self.change_queue.put_nowait((Change.UPDATED, sub_path))\n", "                                pass\n")), ("R-C14-7",)),
